@@ -90,6 +90,7 @@ func init() {
 		"os.Getenv":             func(fr *frame, a []value) value { return "" },
 		"os.LookupEnv":          func(fr *frame, a []value) value { return tuple{"", false} },
 		"syscall.Getenv":        func(fr *frame, a []value) value { return tuple{"", false} },
+		"crypto/rand.Read":      extRandRead,
 		"encoding/json.Marshal": extJSONMarshal,
 		"encoding/json.Unmarshal": extJSONUnmarshal,
 		"strconv.ParseUint":     extParseUint,
@@ -1205,8 +1206,166 @@ func extJSONUnmarshal(fr *frame, args []value) value {
 		panic(engineError("json.Unmarshal into nil"))
 	}
 	res, ok := fr.i.invoke(fr, it, "UnmarshalJSON", args[0])
-	if !ok {
-		panic(engineError("json.Unmarshal into " + it.t.String() + " (no UnmarshalJSON method; reflection-based decoding is not modelled)"))
+	if ok {
+		return res
 	}
-	return res
+	// flat JSON objects with integer members into a struct of tagged integer fields
+	// (git-bug's type probes): decoded by a small exact model
+	if r, done := fr.i.jsonProbe(fr, args[0], it); done {
+		return r
+	}
+	if fr.i.params["json_opaque_decode"] == 1 {
+		// opt-in (stated in the check): the decoded field values are not modelled, the
+		// call either succeeds leaving the target as it is or fails
+		t := fr.i.ps.fresh("choose", "json-decode-outcome", 8)
+		if fr.i.ps.branch(fr.i.tt().Cmp("eq", t, fr.i.tt().Const(8, 0))) {
+			return iface{}
+		}
+		return fr.i.newError("json: cannot unmarshal")
+	}
+	panic(engineError("json.Unmarshal into " + it.t.String() + " (no UnmarshalJSON method; reflection-based decoding is not modelled)"))
+}
+
+// jsonProbe decodes {"name":<integer>} objects (the integer may be a decimal segment)
+// into a pointer to a struct whose fields are integers with json tags.
+func (i *interpreter) jsonProbe(fr *frame, data value, target iface) (value, bool) {
+	pt, ok := target.t.Underlying().(*types.Pointer)
+	if !ok {
+		return nil, false
+	}
+	st, ok := pt.Elem().Underlying().(*types.Struct)
+	if !ok || st.NumFields() == 0 {
+		return nil, false
+	}
+	for f := 0; f < st.NumFields(); f++ {
+		b, ok := st.Field(f).Type().Underlying().(*types.Basic)
+		if !ok || b.Info()&types.IsInteger == 0 {
+			return nil, false
+		}
+	}
+	elems := seqOf(data)
+	// tokens: { "name" : value , ... }
+	pos := 0
+	skip := func() {
+		for pos < len(elems) {
+			c, ok := elems[pos].(uint8)
+			if ok && (c == ' ' || c == '\n' || c == '\t') {
+				pos++
+				continue
+			}
+			break
+		}
+	}
+	expect := func(ch byte) bool {
+		skip()
+		if pos < len(elems) {
+			if c, ok := elems[pos].(uint8); ok && c == ch {
+				pos++
+				return true
+			}
+		}
+		return false
+	}
+	fail := func() (value, bool) { return nil, false }
+	if !expect('{') {
+		return fail()
+	}
+	p := target.v.(*value)
+	if p == nil {
+		return fail()
+	}
+	dst := (*p).(structure)
+	for {
+		if !expect('"') {
+			return fail()
+		}
+		name := ""
+		for pos < len(elems) {
+			c, ok := elems[pos].(uint8)
+			if !ok {
+				return fail()
+			}
+			pos++
+			if c == '"' {
+				break
+			}
+			name += string(rune(c))
+		}
+		if !expect(':') {
+			return fail()
+		}
+		skip()
+		if pos >= len(elems) {
+			return fail()
+		}
+		var val value
+		if d, isDec := elems[pos].(decSeg); isDec {
+			val = sym{d.t, types.Uint64}
+			pos++
+		} else {
+			n := uint64(0)
+			digits := 0
+			for pos < len(elems) {
+				c, ok := elems[pos].(uint8)
+				if !ok || c < '0' || c > '9' {
+					break
+				}
+				n = n*10 + uint64(c-'0')
+				digits++
+				pos++
+			}
+			if digits == 0 {
+				return fail()
+			}
+			val = n
+		}
+		for f := 0; f < st.NumFields(); f++ {
+			tag := reflectTagJSON(st.Tag(f))
+			if tag == name || (tag == "" && strings.EqualFold(st.Field(f).Name(), name)) {
+				k := st.Field(f).Type().Underlying().(*types.Basic).Kind()
+				switch v := val.(type) {
+				case sym:
+					dst[f] = i.symConv(k, v)
+				case uint64:
+					dst[f] = bitsToValue(k, v)
+				}
+			}
+		}
+		if expect(',') {
+			continue
+		}
+		if expect('}') {
+			skip()
+			if pos != len(elems) {
+				return fail()
+			}
+			return iface{}, true
+		}
+		return fail()
+	}
+}
+
+func reflectTagJSON(tag string) string {
+	const key = `json:"`
+	i := strings.Index(tag, key)
+	if i < 0 {
+		return ""
+	}
+	rest := tag[i+len(key):]
+	j := strings.IndexAny(rest, `",`)
+	if j < 0 {
+		return ""
+	}
+	return rest[:j]
+}
+
+// crypto/rand.Read (M-RAND): nonces have no functional role in git-bug; the bytes are a
+// fixed pattern so that native replays, which draw real random bytes, cannot diverge on
+// anything that depends on them being equal to the model's.
+func extRandRead(fr *frame, args []value) value {
+	b := args[0].([]value)
+	for j := range b {
+		b[j] = uint8(0x40 + j%32)
+	}
+	return tuple{len(b), iface{}}
 }
